@@ -8,7 +8,7 @@ def thr(R):
     return (2 * R + 3) // 6
 
 
-def gen_groups(rng, R, n_groups, *, flag_len=False, allow_open=True, first_forced=False, gaps=None):
+def gen_groups(rng, R, n_groups, *, flag_len=False, allow_open=True, first_forced=False, gaps=None, dup=0.08):
     """Abstract note groups: list of dict(tick, lines=[(idx, len)...] in file order, tap, forced)."""
     groups = []
     t = rng.choice([0, 0, 1, R, 5 * R])
@@ -37,6 +37,10 @@ def gen_groups(rng, R, n_groups, *, flag_len=False, allow_open=True, first_force
         if is_open:
             lines.append((7, rng.choice([0, base])))
         rng.shuffle(lines) if rng.random() < 0.3 else None
+        if lines and rng.random() < dup:
+            # a lane line written twice in its tick (same length): the lanes named are still the same set
+            for _ in range(rng.choice([1, 1, 2])):
+                lines.insert(rng.randint(0, len(lines)), rng.choice([l for l in lines]))
         tap = rng.random() < 0.25
         forced = rng.random() < 0.3 and (gi > 0 or first_forced)
         flags = []
@@ -112,6 +116,19 @@ def exotic_line(rng, line):
     if rng.random() < 0.7:
         parts[-1] = resp(parts[-1])
     return rng.choice(EXOTIC_WS) * rng.randint(0, 2) + " ".join(parts) + rng.choice(["", rng.choice(EXOTIC_WS)])
+
+
+def zero_pad(rng, line):
+    """Respell '<tick> = N <i> <len>' / '<tick> = S 2 <len>' with leading zeros in the tick and / or the length
+    (int('0096') = 96; the recognisers accept any run of decimal digits)."""
+    parts = line.split(" ")
+    if len(parts) < 5 or not parts[0].isdigit() or not parts[-1].isdigit():
+        return line
+    if rng.random() < 0.5:
+        parts[0] = "0" * rng.randint(1, 3) + parts[0]
+    if rng.random() < 0.8:
+        parts[-1] = "0" * rng.randint(1, 3) + parts[-1]
+    return " ".join(parts)
 
 
 def gen_tempo(rng, R, span):
